@@ -67,6 +67,8 @@ def install_spec(I: Interp, f):
         params = list(inspect.signature(f).parameters)
         allargs = list(args) + [kwargs[p] for p in params[len(args):] if p in kwargs]
         d = allargs[meta["unfold_on"]]
+        if meta.get("int_args"):
+            d = None
         unfoldable = isinstance(d, (SymNode, PyTuple, PyList, Conc, SymInt, SymBool, SymStr)) or \
             (isinstance(d, (SymV, SymSeq)) and I.spec_depth == 0 and getattr(I, "unfold_top", False))
         I.unfold_top = False
@@ -81,6 +83,37 @@ def install_spec(I: Interp, f):
             finally:
                 I.spec_depth -= 1
         # uninterpreted application
+        if meta.get("int_args"):
+            its = [I.as_int(a) for a in allargs]
+            if all(t is not None for t in its):
+                app = fn(f"{name}_ii", *([Int] * len(its)), Int)(*its)
+                if meta.get("nonneg"):
+                    I.ctx.assume(app >= 0)
+                if meta.get("define") and I.define_fuel > 0 and app.get_id() not in I.defined_apps:
+                    I.defined_apps.add(app.get_id())
+                    I.define_fuel -= 1
+                    saved_pcs, I.pcs = I.pcs, []
+                    saved_depth, I.spec_depth = I.spec_depth, 0
+                    try:
+                        info = loader.get_func_info(f)
+                        env0 = Env({}, None, f.__globals__)
+                        outs = I.explore(lambda: I.run_function(info.node, env0, f.__globals__, allargs, {}, None, None, [], {}, name=name))
+                        term = None
+                        for o in outs:
+                            if o.kind != "ret":
+                                continue
+                            vt = I.as_int(o.value)
+                            if vt is None:
+                                raise Unsupported(f"defined spec {name} returned non-int")
+                            pc = z3.And(*o.pcs) if o.pcs else z3.BoolVal(True)
+                            term = vt if term is None else z3.If(pc, vt, term)
+                        if term is not None:
+                            I.ctx.assume(app == term)
+                    finally:
+                        I.pcs = saved_pcs
+                        I.spec_depth = saved_depth
+                        I.define_fuel += 1
+                return SymInt(app)
         ts = [I.lift(a) for a in allargs]
         sorts = [V] * len(ts)
         if not meta["total"]:
@@ -581,6 +614,9 @@ def verify_function(fc: FunctionContract, specs, rlimit=20_000_000, hooks=None):
         oname = fc.name
         if fc.arithmetic:
             I.op_may_raise = False
+        from . import loops as _loops
+        _loops.install_lemmas(I)
+        I.extra_obligations = []
         star = dstar = None
         plain = []
         for n, k in fc.params:
@@ -624,12 +660,24 @@ def verify_function(fc: FunctionContract, specs, rlimit=20_000_000, hooks=None):
                 rep["status"] = "vacuous"
                 return rep
         I.pcs.extend(pre_pcs)
+        if fc.loops:
+            pnames = [a.arg for a in info.node.args.args]
+            olds = dict(zip(pnames, inputs))
+            _loops.install(I, fc.loops, fc.name, lambda: olds)
         if fc.old is not None:
             oouts = I.explore(lambda: I.call_function(Conc(fc.old), spec_inputs, {}))
             if len(oouts) != 1 or oouts[0].kind != "ret":
                 raise Unsupported("old-state expression must be a single-path value")
             old_val = oouts[0].value
-        code_outs = I.explore(lambda: I.call_function(Conc(fobj), inputs, {}, star, dstar))
+        def run_code():
+            saved = I.contracts.pop(id(fobj), None)      # the function under proof runs its real body ...
+            I.top_frame_contract = (id(fobj), saved)     # ... and its own contract applies to recursive calls only
+            try:
+                return I.call_function(Conc(fobj), inputs, {}, star, dstar)
+            finally:
+                if saved is not None:
+                    I.contracts[id(fobj)] = saved
+        code_outs = I.explore(run_code)
         rep["paths"] = len(code_outs)
         if fc.refines is not None:
             spec_outs = I.explore(lambda: I.call_function(Conc(fc.refines), spec_inputs, {}))
